@@ -308,6 +308,9 @@ impl Spec {
                     let f1 = r.range_f(0.1, 0.9);
                     let mut a = l.clone();
                     let mut b = l.clone();
+                    // delivered / absorbed energy (SALIDA) may be negative, so its parts may have opposite signs
+                    // (30 written as 60 and -30): f > 1 makes the second part negative
+                    let f1 = if matches!(l, Line::Out { .. }) && r.chance(1, 3) { r.range_f(1.25, 3.0) } else { f1 };
                     let parts: Vec<(f32, f32)> = l.values().iter().map(|x| split_value(*x, f1)).collect();
                     *a.values_mut() = parts.iter().map(|p| p.0).collect();
                     *b.values_mut() = parts.iter().map(|p| p.1).collect();
@@ -354,11 +357,20 @@ impl Spec {
         if rw.bom {
             s.push('\u{feff}');
         }
+        // whatever comes first in the file (a comment, a blank line, metadata, the header, data) may follow the
+        // byte-order mark with surrounding whitespace of its own
+        let lead = |r: &mut crate::rng::Rng| if rw.padding { *r.pick(&["", " ", "\t", "   "]) } else { "" };
+        if rw.comments && r.chance(1, 4) {
+            s.push_str(&format!("{}# archivo de componentes\n", lead(&mut r)));
+        }
+        if rw.blank_lines && r.chance(1, 4) {
+            s.push_str(*r.pick(&["\n", "  \n"]));
+        }
         for (k, v) in &self.meta {
-            s.push_str(&format!("#META {}: {}\n", k, v));
+            s.push_str(&format!("{}#META {}: {}{}\n", lead(&mut r), k, v, if rw.padding { *r.pick(&["", " ", "\t"]) } else { "" }));
         }
         if rw.header {
-            s.push_str("vector, tipo, src_dst, 1, 2, 3\n");
+            s.push_str(&format!("{}vector, tipo, src_dst, 1, 2, 3\n", lead(&mut r)));
         }
         for l in &self.lines {
             if rw.comments && r.chance(1, 3) {
